@@ -440,6 +440,23 @@ func (x *Engine) applyContract(fr *Frame, st *State, fs *FuncSpec, sig *types.Si
 	env := x.contractEnv(fs, sig, args)
 	pkg := x.pkgByPath(fs.Pkg)
 	x.usedContracts[key] = true
+	// a callee known by its contract was verified on the assumption that it is entered without the declared mutexes
+	// it acquires itself: the caller must not hold one of them (sync.RWMutex is not reentrant, not even for readers:
+	// a writer queued between the two read locks blocks the second one for ever)
+	if len(x.guards) > 0 && !fs.IsIface && !fs.IsCallback {
+		if callee := x.fnByKey[key]; callee != nil {
+			var gs []*ssa.Global
+			for g := range x.acquiredMutexes(callee) {
+				gs = append(gs, g)
+			}
+			sort.Slice(gs, func(i, j int) bool { return gs[i].Name() < gs[j].Name() })
+			for _, g := range gs {
+				if !x.requiresMentionsMutex(fs, g) {
+					x.lockAcquireChecks(fr, st, x.mutexTerm(g), "call-of-"+callee.Name()+"-which-locks", pos)
+				}
+			}
+		}
+	}
 	if fs.Assumed || fs.IsIface {
 		x.assumedC[key] = true
 	}
@@ -1164,4 +1181,72 @@ func (x *Engine) typeByNode(pkg *ssa.Package, n *Node) *ssa.Type {
 		}
 	}
 	return nil
+}
+
+// acquiredMutexes: the declared (guard / lock-order) mutex variables a function locks itself or through the functions
+// it calls, found syntactically (static callees, function literals; depth-limited).
+func (x *Engine) acquiredMutexes(fn *ssa.Function) map[*ssa.Global]bool {
+	if x.acqMemo == nil {
+		x.acqMemo = map[*ssa.Function]map[*ssa.Global]bool{}
+	}
+	if m, ok := x.acqMemo[fn]; ok {
+		return m
+	}
+	out := map[*ssa.Global]bool{}
+	x.acqMemo[fn] = out // cuts recursion
+	var scan func(f *ssa.Function, depth int)
+	seen := map[*ssa.Function]bool{}
+	scan = func(f *ssa.Function, depth int) {
+		if f == nil || seen[f] || depth > 6 || f.Blocks == nil {
+			return
+		}
+		seen[f] = true
+		for _, b := range f.Blocks {
+			for _, ins := range b.Instrs {
+				ci, ok := ins.(ssa.CallInstruction)
+				if !ok {
+					continue
+				}
+				if _, isGo := ins.(*ssa.Go); isGo {
+					continue // another thread
+				}
+				cc := ci.Common()
+				callee := cc.StaticCallee()
+				if callee == nil {
+					if mc, ok := cc.Value.(*ssa.MakeClosure); ok {
+						callee, _ = mc.Fn.(*ssa.Function)
+					}
+				}
+				if callee == nil {
+					continue
+				}
+				switch callee.String() {
+				case "(*sync.Mutex).Lock", "(*sync.RWMutex).Lock", "(*sync.RWMutex).RLock":
+					if len(cc.Args) > 0 {
+						if u, ok := cc.Args[0].(*ssa.UnOp); ok {
+							if g, ok := u.X.(*ssa.Global); ok && x.isGuardMutex(g) {
+								out[g] = true
+							}
+						}
+					}
+				default:
+					if callee.Pkg != nil && isRepoPkg(callee.Pkg.Pkg) {
+						scan(callee, depth+1)
+					}
+				}
+			}
+		}
+	}
+	scan(fn, 0)
+	return out
+}
+
+// requiresMentionsMutex: the contract states itself what it expects of this mutex at entry (e.g. "holds the update lock").
+func (x *Engine) requiresMentionsMutex(fs *FuncSpec, g *ssa.Global) bool {
+	for _, c := range fs.Requires {
+		if strings.Contains(c.Text, "lockcount("+g.Name()+")") {
+			return true
+		}
+	}
+	return false
 }
